@@ -74,7 +74,14 @@ def gen_size_session(rng):
     vnames = []
     types = [1, 3, 4, 6] if fmt < 5 else [1, 3, 4, 6, 10]
     nv = rng.range(1, 3)
-    plan = rng.choice(['last_big', 'first_big', 'two_big', 'just_below', 'at', 'rec_big', 'big_fixed_plus_rec', 'small'])
+    plan = rng.choice(['last_big', 'first_big', 'two_big', 'just_below', 'at', 'rec_big', 'big_fixed_plus_rec', 'small',
+                       'rec_before_big_fixed', 'rec_before_big_fixed', 'mix', 'mix'])
+    if plan == 'rec_before_big_fixed':
+        # a record variable defined EARLIER than a too-large (or exactly-at-threshold) last fixed-size variable
+        if not has_rec:
+            has_rec = True; dim(0)
+        nv = rng.range(2, 3)
+        recpos = rng.below(nv - 1)
     def big_dims(xt, target):
         """dimension ids of a variable of about `target` bytes"""
         xs = ELSIZE[xt]
@@ -104,6 +111,18 @@ def gen_size_session(rng):
             ids, _ = big_dims(xt, T + delta)
         elif plan == 'rec_big' and has_rec and i == nv - 1:
             ids, _ = big_dims(xt, T + 16); ids = [0] + ids; isrec = True
+        elif plan == 'rec_before_big_fixed' and i == recpos:
+            ids = [0, dim(rng.range(1, 3))]; isrec = True
+        elif plan == 'rec_before_big_fixed' and i == nv - 1:
+            ids, _ = big_dims(xt, T + rng.choice([delta, max(delta, xs) + 8, xs, 16]))
+        elif plan == 'mix':
+            cls = rng.choice(['small', 'small', 'below', 'above', 'at'])
+            if cls == 'small':
+                ids = [dim(rng.range(1, 5))]
+            else:
+                ids, _ = big_dims(xt, T + {'below': -8, 'above': 16, 'at': delta}[cls])
+            if has_rec and rng.chance(1, 3):
+                ids = [0] + ids; isrec = True
         elif plan == 'big_fixed_plus_rec' and i == 0:
             ids, _ = big_dims(xt, T + 16)
         elif plan == 'big_fixed_plus_rec' and has_rec:
